@@ -2,7 +2,7 @@ use std::fmt::{Result as FmtResult, Write as FmtWrite};
 
 use super::{Stringifier, Stringify};
 use crate::{
-    escape::gen_lit_str,
+    escape::{gen_lit_float, gen_lit_str},
     parse::expr::{ArrayFieldKind, Expression, ObjectFieldKind},
 };
 
@@ -114,7 +114,7 @@ fn expression_strigify_write<'s, W: FmtWrite>(
             stringifier.write_token(&value, None, location)?;
         }
         Expression::LitFloat { value, location } => {
-            let value = value.to_string();
+            let value = gen_lit_float(*value);
             stringifier.write_token(&value, None, location)?;
         }
         Expression::LitBool { value, location } => {
